@@ -95,8 +95,8 @@ func networkCase(c *core.Case) {
 		default:
 		}
 		if !res.Reached {
-			// liveness is C04's subject; without commits there is nothing to compare
-			run.Inconclusive(fmt.Sprintf("network did not reach height %d (case %s:%d): %s%s", h, c.Group, c.I, res.Deadlock, res.Stuck))
+			// liveness is C04's subject; without commits there is nothing to compare (the floor on "networks" guards the workload)
+			run.Count("networks_abandoned_no_progress", 1)
 			return
 		}
 	}
